@@ -304,6 +304,54 @@ type fanOutT struct {
 	Fn     *ssa.Function // the function with the loop and the go statement
 	Snap   *ssa.Call     // the call that builds the snapshot (in the dispatch function)
 	Ranged ssa.Value     // what Fn ranges over: Snap itself, or Fn's parameter that receives it
+	Local  bool          // the snapshot is built in Fn itself (nil, then appends) rather than by a call
+}
+
+// localSnapshot: the slice fn ranges over when it is built in fn itself: every
+// origin is nil, a make, or an append whose first argument is again such a
+// value.
+func (c *Ctx) localSnapshot(fn *ssa.Function) ssa.Value {
+	var out ssa.Value
+	funcInstrs(fn, func(in ssa.Instruction) {
+		ia, ok := in.(*ssa.IndexAddr)
+		if !ok || out != nil {
+			return
+		}
+		if _, isSlice := ia.X.Type().Underlying().(*types.Slice); !isSlice {
+			return
+		}
+		seen := map[ssa.Value]bool{}
+		nApp := 0
+		var built func(v ssa.Value) bool
+		built = func(v ssa.Value) bool {
+			if seen[v] {
+				return true
+			}
+			seen[v] = true
+			for _, o := range c.originsLocal(v) {
+				switch t := o.(type) {
+				case *ssa.Const:
+					if t.Value != nil {
+						return false
+					}
+				case *ssa.MakeSlice:
+				case *ssa.Call:
+					b, isB := t.Call.Value.(*ssa.Builtin)
+					if !isB || b.Name() != "append" || !built(t.Call.Args[0]) {
+						return false
+					}
+					nApp++
+				default:
+					return false
+				}
+			}
+			return true
+		}
+		if _, isCall := ia.X.(*ssa.Call); !isCall && built(ia.X) && nApp > 0 {
+			out = ia.X
+		}
+	})
+	return out
 }
 
 func (c *Ctx) fanOut() fanOutT {
@@ -351,6 +399,10 @@ func (c *Ctx) fanOut() fanOutT {
 	var ranged ssa.Value
 	if snap != nil {
 		ranged = snap
+	} else if hasGo {
+		if loc := c.localSnapshot(d); loc != nil {
+			return fanOutT{Fn: d, Ranged: loc, Local: true}
+		}
 	}
 	return fanOutT{Fn: d, Snap: snap, Ranged: ranged}
 }
@@ -381,7 +433,7 @@ func (c *Ctx) snapshotSourceIn(fn *ssa.Function) *ssa.Call {
 // goPerElement: g is in the loop ranging over snap, executes once per element
 // load, and passes the element.
 func (c *Ctx) goPerElement(g *ssa.Go, snapCall *ssa.Call) (bool, string) {
-	if snapCall == nil {
+	if snapCall == nil && !c.fanOut().Local {
 		return false, "no snapshot"
 	}
 	snap := c.fanOut().Ranged
@@ -752,7 +804,23 @@ func (c *Ctx) snapshotRule(rule string, ls *Locksets, lock string) *ssa.Call {
 	r, a := c.R, c.A
 	// snapshot: the range in dispatch iterates over a fresh result
 	snap := c.snapshotSource(a.SetDispatch)
-	if snap == nil {
+	if fo := c.fanOut(); snap == nil && fo.Local {
+		// the snapshot is built in the dispatch function itself: a fresh slice (nil, then appends), filled while
+		// the set's lock is held
+		okL, nApp := true, 0
+		funcInstrs(fo.Fn, func(in ssa.Instruction) {
+			if cc := callOf(in); cc != nil {
+				if b, isB := cc.Value.(*ssa.Builtin); isB && b.Name() == "append" {
+					nApp++
+					if ls.Held(in, lock) == 0 {
+						okL = false
+					}
+				}
+			}
+		})
+		r.Add(rule, "snapshot-fresh", c.Pos(fo.Fn.Pos()), c.FuncKey(fo.Fn), "the handler snapshot is a fresh slice per dispatch", true, "built in the dispatch function from nil by appends")
+		r.Add(rule, "snapshot-under-lock", c.Pos(fo.Fn.Pos()), c.FuncKey(fo.Fn), "the snapshot is filled while the set's lock is held", okL && nApp > 0, fmt.Sprintf("%d appends", nApp))
+	} else if snap == nil {
 		r.Add(rule, "snapshot", c.Pos(a.SetDispatch.Pos()), c.FuncKey(a.SetDispatch), "dispatch iterates over a call result (the snapshot)", false, "the ranged slice is not a call result")
 	} else {
 		callee := snap.Call.StaticCallee()
